@@ -16,7 +16,10 @@ RULE = ('(a) bounded-exhaustive token soups (default context: 46-token alphabet;
         'soup. Oracle under the read-count termination monitor: tolerant parse raises nothing and '
         'terminates; returns a node list; if the strict parse of the same input succeeds the two '
         'canonical dumps (positions, fields, parsing-state fields) are equal; for composites the '
-        'first len(strict(D)) top-level nodes equal strict(D). Non-trivial = input that does not '
+        'first len(strict(D)) top-level nodes equal strict(D); (d) D + opener + D2 + opener2 + D3 '
+        'with nothing closed: every chars node of strict(D2) precedes the strict error position '
+        'and must be in the tolerant tree; (e) thorough: atheris campaigns running oracle (a). '
+        'Non-trivial = input that does not '
         'parse strictly (recovery taken) or whose tree has >= 3 node kinds; distinct by string.')
 ASSUMPTIONS = [
     'termination is decided by a bound of 200*(n+8) token-reader primitive calls',
